@@ -56,8 +56,32 @@ Lemma f_haplobin_spec (chrs : list (list PrimFloat.float)) (nblk : list nat) : l
     haplobin fops nblk (concat chrs) (starts_from 0 (map (@length PrimFloat.float) chrs)) (stops_from 0 (map (@length PrimFloat.float) chrs)) = map Some (concat labs)
     /\ Forall2 (fun c l => length l = length c) chrs labs
     /\ (forall c l, nth_error labs c = Some l -> Forall (fun j => (offset nblk c <= j < offset nblk (S c))%nat) l)
-    /\ StronglySorted Nat.le (concat labs).
+    /\ StronglySorted Nat.le (concat labs)
+    /\ (Forall2 (fun n c => (n <= length c)%nat) nblk chrs -> forall j, (j < list_sum nblk)%nat -> In j (concat labs)).
 Proof.
   intros H. destruct (lin_hyp_f_sound nblk chrs H) as (A & B & C).
   exact (haplobin_spec fops okf f_leb_total f_leb_trans chrs nblk A B C).
+Qed.
+
+(** the executed instance of haplomat / _calc_haplomat succeeds on every valid input that meets the decidable hypothesis *)
+Lemma f_haplomat_succeeds (chrs : list (list PrimFloat.float)) (nblk : list nat) e1 e2 nhap geno u nt :
+  chrs <> [] -> (length chrs <= nhap)%nat ->
+  nhaploblk_chrom fops nhap (concat chrs) (starts_from 0 (map (@length PrimFloat.float) chrs)) (stops_from 0 (map (@length PrimFloat.float) chrs)) = Ok nblk ->
+  lin_hyp_f nblk chrs = true -> Forall2 (fun n c => (n <= length c)%nat) nblk chrs ->
+  exists hm, calc_haplomat fops e1 e2 nhap geno (concat chrs) (starts_from 0 (map (@length PrimFloat.float) chrs))
+               (stops_from 0 (map (@length PrimFloat.float) chrs)) (map (@length PrimFloat.float) chrs) u nt = Ok hm.
+Proof.
+  intros Hne Hn E1 H Hlen. destruct (lin_hyp_f_sound nblk chrs H) as (A & B & C).
+  exact (haplomat_succeeds fops okf f_leb_total f_leb_trans chrs nblk e1 e2 nhap geno u nt Hne B Hn E1 C Hlen).
+Qed.
+
+(** the repair pass leaves the equal-width labels as they are whenever every equal-width bin holds a marker *)
+Lemma f_equal_width_kept (chrs : list (list PrimFloat.float)) (nblk : list nat) : lin_hyp_f nblk chrs = true ->
+  (forall j, (j < list_sum nblk)%nat ->
+     In (Some j) (old_haplobin fops nblk (concat chrs) (starts_from 0 (map (@length PrimFloat.float) chrs)) (stops_from 0 (map (@length PrimFloat.float) chrs)))) ->
+  haplobin fops nblk (concat chrs) (starts_from 0 (map (@length PrimFloat.float) chrs)) (stops_from 0 (map (@length PrimFloat.float) chrs))
+  = old_haplobin fops nblk (concat chrs) (starts_from 0 (map (@length PrimFloat.float) chrs)) (stops_from 0 (map (@length PrimFloat.float) chrs)).
+Proof.
+  intros H. destruct (lin_hyp_f_sound nblk chrs H) as (A & B & C).
+  exact (equal_width_kept fops okf f_leb_total f_leb_trans chrs nblk A B C).
 Qed.
